@@ -31,6 +31,9 @@ ASSUME LET za == Hx!ToBytes(kZA)
            inner == Inner(kV, za, zb, kRA, kRB)
        IN /\ Tag(2, kV, inner) = S!KxS1(kV, za, zb, kRA, kRB) /\ HX(Tag(2, kV, inner)) = kS1
           /\ Tag(3, kV, inner) = S!KxS2(kV, za, zb, kRA, kRB) /\ HX(Tag(3, kV, inner)) = kS2
+(* the block-by-block ZA of Sm2Kx is the ZA of algo/SM2 (short, seam-length and multi-block identities) and the published one *)
+ASSUME HX(ZAof(S!DefaultUid, kPA)) = kZA /\ HX(ZAof(S!DefaultUid, kPB)) = kZB
+ASSUME \A n \in {0, 1, 53, 54, 61, 62, 63, 200} : LET u == [i \in 1..n |-> (7 * i) % 256] IN ZAof(u, kPA) = S!ZA(u, kPA)
 (* the byte-oriented avf of package ecdh's formulation on the published abscissas *)
 ASSUME BN!Norm(AvfBytes(F32(kRA[1]))) = Num("cf608a5db8fe5ce07f15026940bae40e") /\ BN!Norm(AvfBytes(F32(kRB[1]))) = Num("fdc2802cdb14ccccdb0a90471f9bd707")
 
